@@ -262,7 +262,8 @@ func c15Aliases(ctx *core.Ctx, idx int, res *core.Result) {
 	root := filepath.Join(base, "work")
 	os.MkdirAll(filepath.Join(root, "real", "sub"), 0o755)
 	os.WriteFile(filepath.Join(base, "p.patch"), []byte(c15Patch), 0o644)
-	files := []string{"real/sub/x.go", "real/sub/y.go", "real/top.go"}
+	// (top.go next to the links is what 'abslink/../top.go' would name if '..' were taken off the spelling of the path)
+	files := []string{"real/sub/x.go", "real/sub/y.go", "real/top.go", "top.go"}
 	for _, f := range files {
 		os.WriteFile(filepath.Join(root, f), []byte(c15Src), 0o644)
 	}
@@ -290,6 +291,14 @@ func c15Aliases(ctx *core.Ctx, idx int, res *core.Result) {
 		{"link", []string{"sub"}, []string{"real/sub/x.go", "real/sub/y.go"}},
 		{"link", []string{"top.go", "sub/..."}, []string{"real/sub/x.go", "real/sub/y.go", "real/top.go"}},
 		{"abslink", []string{"."}, []string{"real/sub/x.go", "real/sub/y.go"}},
+		// '..' behind a link to a directory is the parent of the directory linked to: the file the operating system
+		// opens under that name is the file that is named
+		{"", []string{"abslink/../top.go"}, []string{"real/top.go"}},
+		{"", []string{"abslink/.."}, []string{"real/sub/x.go", "real/sub/y.go", "real/top.go"}},
+		{"", []string{"abslink/../...", "real/top.go"}, []string{"real/sub/x.go", "real/sub/y.go", "real/top.go"}},
+		{"", []string{"abslink/../../real/sub/x.go"}, []string{"real/sub/x.go"}},
+		{"link", []string{"sub/../top.go", "sub/.."}, []string{"real/sub/x.go", "real/sub/y.go", "real/top.go"}},
+		{"", []string{"real/sub/../top.go", "./real/../top.go"}, []string{"real/top.go", "top.go"}},
 	}
 	v := vs[r.Intn(len(vs))]
 	var env []string
